@@ -86,8 +86,74 @@ Fixpoint C06_scan (names : list nat) (acts : list action) (t : list obs) : bool 
     end
   | _, _ => true
   end.
+(* ---- C06 (direct host, abort of a command at ANY nesting level): cancelled work never produces another output.
+        The values the harness delivers are unique within a run and far from every constant of the program (1000 + 10 k;
+        maps add at most 9), so a value shows where it went: once a command has been aborted through its handle, a value
+        delivered afterwards to one of ITS requests must never show up in any later event or effect - its continuation
+        would have had to run.  (A command kept under name n is the whole subtree of `CAbortable n`; the abort is noticed
+        lazily, at the command's next run_until_settled, which comes before any of its tasks is polled.)  Evaluated on
+        implementation traces; not derived from the model (the model's own traces pass it on every generated case). ---- *)
+Fixpoint task_rtags (t : task) : list nat :=
+  match t with
+  | TRet => []
+  | TEmit _ _ k | TNotify _ _ k | TJoin _ k | TAbortT _ k | TYield _ k | TAbortC _ k => task_rtags k
+  | TReq tg _ _ k | TLegReq tg _ _ k => tg :: task_rtags k
+  | TForEach tg _ _ b k => tg :: task_rtags b ++ task_rtags k
+  | TSpawn c _ k => task_rtags c ++ task_rtags k
+  | TBoth t1 _ _ t2 _ _ k | TBothL t1 _ _ t2 _ _ k | TRace t1 _ t2 _ _ k => t1 :: t2 :: task_rtags k
+  | TBothJ _ tg _ _ k => tg :: task_rtags k
+  | THost _ _ _ m ex k => task_rtags m ++ flat_map task_rtags ex ++ task_rtags k
+  end.
+Fixpoint rb_rtags (r : rbld) : list nat :=
+  match r with RbReq tg _ => [tg] | RbMap r' _ => rb_rtags r' | RbThenReq r' tg => tg :: rb_rtags r' end.
+Fixpoint sb_rtags (s : sbld) : list nat :=
+  match s with
+  | SbStr tg _ => [tg]
+  | SbMap s' _ => sb_rtags s'
+  | SbThenReq s' tg | SbThenStr s' tg => tg :: sb_rtags s'
+  | SbOfReq r tg => tg :: rb_rtags r
+  end.
+Fixpoint cmd_rtags (c : cmd) : list nat :=
+  match c with
+  | CNew m ex => task_rtags m ++ flat_map task_rtags ex
+  | CThen a b | CAnd a b => cmd_rtags a ++ cmd_rtags b
+  | CAll cs => flat_map cmd_rtags cs
+  | CMapEff _ c' | CMapEv _ c' | CIdEff c' | CIdEv c' | CInto c' | CAbortable _ c' => cmd_rtags c'
+  | CSendR r _ => rb_rtags r
+  | CSendS s _ => sb_rtags s
+  end.
+(* the requests of everything kept under the name n *)
+Fixpoint abortable_rtags (n : nat) (c : cmd) : list nat :=
+  match c with
+  | CNew _ _ | CSendR _ _ | CSendS _ _ => []
+  | CThen a b | CAnd a b => abortable_rtags n a ++ abortable_rtags n b
+  | CAll cs => flat_map (abortable_rtags n) cs
+  | CMapEff _ c' | CMapEv _ c' | CIdEff c' | CIdEv c' | CInto c' => abortable_rtags n c'
+  | CAbortable m c' => if Nat.eqb m n then cmd_rtags c' else abortable_rtags n c'
+  end.
+Fixpoint nodupb (l : list nat) : bool := match l with [] => true | x :: r => negb (existsb (Nat.eqb x) r) && nodupb r end.
+Definition poisoned (poison : list nat) (v : nat) : bool := existsb (fun o => Nat.leb o v && Nat.leb v (o + 9)) poison.
+Definition obs_clean (poison : list nat) (o : obs) : bool :=
+  match o with
+  | OEffects l => forallb (fun e => negb (poisoned poison (oe_val e))) l
+  | OEvents l => forallb (fun e => negb (poisoned poison (v_val e))) l
+  | _ => true
+  end.
+Fixpoint C06_causal_scan (p : cmd) (acts : list action) (t : list obs) (dead poison : list nat) : bool :=
+  match acts, t with
+  | a :: acts', o :: t' =>
+    obs_clean poison o &&
+    match a with
+    | AAbort n => C06_causal_scan p acts' t' (abortable_rtags n p ++ dead) poison
+    | AResolve tg _ _ out => C06_causal_scan p acts' t' dead (if existsb (Nat.eqb tg) dead && Nat.leb 1000 out then out :: poison else poison)
+    | _ => C06_causal_scan p acts' t' dead poison
+    end
+  | _, _ => true
+  end.
+Definition C06_causal (p : cmd) (acts : list action) (t : list obs) : bool :=
+  negb (nodupb (cmd_rtags p)) || C06_causal_scan p acts t [] [].
 Definition C06_ok (c : rtcase) : bool :=
-  match c with (core, _, p, _, acts, t) => no_panic t && (core || C06_scan (top_names p) acts t) end.
+  match c with (core, _, p, _, acts, t) => no_panic t && (core || (C06_scan (top_names p) acts t && C06_causal p acts t)) end.
 
 (* ---- C07 (direct host): done implies no task is held; once every request has been resolved or
         dropped (drain phase of the harness) the command reports done ---- *)
